@@ -330,6 +330,9 @@ var c03lCrafted = [][2][9]uint32{
 }
 
 func c03lGen(r *rng, tier string, emit func(string)) {
+	// newRng(seed) starts at seed*gamma + c and every draw adds gamma, so the streams of consecutive seeds are
+	// the same stream shifted by one draw; restart from a hashed state to make the seeds independent
+	r = &rng{s: r.u64()*0xd6e8feb86659fd93 + 0x5851f42d4c957f2d}
 	n := 130
 	if tier == "thorough" {
 		n = 1500
